@@ -14,6 +14,7 @@ import (
 	"fmt"
 	"math/big"
 	"runtime"
+	"strings"
 	"sync"
 
 	"go.sia.tech/core/consensus"
@@ -35,6 +36,7 @@ const (
 	acctB = 11
 	poolP = 20
 	other = 5 // a key that is neither renter nor host
+	otherCid = 7000 // the worker's second contract
 )
 
 type worker struct {
@@ -60,6 +62,12 @@ func newWorker(id int) (*worker, error) {
 		return nil, err
 	}
 	w.s.AddContract(1, c.ID)
+	// a second contract of the same renter on the same host (funding "through another contract")
+	c2, err := rig.Form(rhpx.Key(rhpx.RenterKeyID), types.Siacoins(100000), types.Siacoins(200000), 400)
+	if err != nil {
+		return nil, err
+	}
+	w.s.AddContract(otherCid, c2.ID)
 	for i := 1; i <= w.maxID; i++ {
 		w.s.StoreSector(i)
 	}
@@ -73,6 +81,9 @@ type kase struct {
 	w    *worker
 	c    *vh.Case
 	cids []int
+	// twoPhase: render the next replenish as `replq …` (decide now) so that the operations that ran
+	// between its two rounds can be placed before `replc` (apply the kept effect)
+	twoPhase bool
 	// dueBig, when set, is the amount due of the next attempt as an unbounded integer (deposit
 	// vectors whose sum does not fit 128 bits)
 	dueBig *big.Int
@@ -83,13 +94,15 @@ func (w *worker) begin(name string, cids ...int) *kase {
 		cids = []int{w.cid}
 	}
 	c := &vh.Case{Name: fmt.Sprintf("w%d-%s", w.id, name), Model: w.s.CaseHeader()}
-	for _, l := range w.s.AdoptLines(rhpx.Obs{Contracts: cids, Accounts: []int{acctA, acctB}}) {
+	for _, l := range w.s.AdoptLines(rhpx.Obs{Contracts: cids, Accounts: []int{acctA, acctB, acctA + 2}}) {
 		c.Op(l, "ok")
 	}
 	// pools cannot be read back distinctly from "absent"; adopt the balance when it is non-zero
-	bs, _ := w.rig.EC.PoolBalances([]proto4.Account{rhpx.Acct(poolP)})
-	if !bs[0].IsZero() {
-		c.Op(fmt.Sprintf("pool %d %s", poolP, bs[0].ExactString()), "ok")
+	bs, _ := w.rig.EC.PoolBalances([]proto4.Account{rhpx.Acct(poolP), rhpx.Acct(poolP + 1), rhpx.Acct(poolP + 2)})
+	for i, b := range bs {
+		if !b.IsZero() {
+			c.Op(fmt.Sprintf("pool %d %s", poolP+i, b.ExactString()), "ok")
+		}
 	}
 	for i := 1; i <= w.maxID; i++ {
 		c.Op(fmt.Sprintf("sector %d", i), "ok []")
@@ -99,7 +112,7 @@ func (w *worker) begin(name string, cids ...int) *kase {
 }
 
 func (k *kase) observe() {
-	o, i := k.w.s.Observe(rhpx.Obs{Contracts: k.cids, Accounts: []int{acctA, acctB}, Pools: []int{poolP}})
+	o, i := k.w.s.Observe(rhpx.Obs{Contracts: k.cids, Accounts: []int{acctA, acctB}, Pools: []int{poolP, poolP + 1}})
 	k.c.Op(o, i)
 }
 
@@ -117,7 +130,12 @@ func (k *kase) attempt(rpc, variant string, cid int, mayCommit bool, due types.C
 	bal0 := k.balances()
 	k.w.rig.Rec.Tee(true)
 	res := run()
-	k.c.Op(res.Op, res.Impl)
+	if k.twoPhase {
+		k.twoPhase = false
+		k.c.Op("replq"+strings.TrimPrefix(res.Op, "repl"), res.Impl)
+	} else {
+		k.c.Op(res.Op, res.Impl)
+	}
 	calls := k.w.rig.Rec.TakeTee()
 	after := k.state(cid)
 	bal1 := k.balances()
@@ -129,7 +147,7 @@ func (k *kase) attempt(rpc, variant string, cid int, mayCommit bool, due types.C
 	var persisted *rhpx.Call
 	for i := range calls {
 		c := &calls[i]
-		if (c.Kind == "revise" || c.Kind == "creditA" || c.Kind == "creditP") && c.Err == nil {
+		if (c.Kind == "revise" || c.Kind == "creditA" || c.Kind == "creditP") && c.Err == nil && c.Contract == k.w.s.CID(cid) {
 			if persisted != nil {
 				k.c.Oracle("two-revisions-in-one-rpc:"+rpc, "%s persisted twice", rpc)
 			}
@@ -619,6 +637,11 @@ func params(idx int) func(w *worker) {
 			roots("length-out-of-range", 1, n, false)
 			roots("length-zero", 0, 0, false)
 			roots("length-huge", 0, 1<<40, false)
+			// offset + length wraps around 2^64
+			roots("offset-max-length-one", ^uint64(0), 1, false)
+			roots("offset-wraps-to-zero", ^uint64(0)-1, 2, false)
+			roots("offset-wraps-into-range", ^uint64(0), 2, false)
+			roots("offset-half-length-half", 1<<63, 1<<63, false)
 			roots("whole", 0, n, true)
 		case 2:
 			k.attempt("append", "no-sectors", cid, false, cur(0), func() rhpx.Result {
@@ -799,6 +822,62 @@ func interleaved(idx int) func(w *worker) {
 		_ = res
 		k.observe()
 		k.done(true, "kind:interleaved")
+	}
+}
+
+
+// interleavedCredit: between the host's replenish quote on one contract and the renter's signature,
+// a listed account (pool) is CREDITED through the renter's second contract.  The revision both
+// parties sign on the first contract pays the quoted sum, so the quoted sum has to be credited.
+func interleavedCredit(idx int) func(w *worker) {
+	return func(w *worker) {
+		w.ensure(1)
+		cid := w.cid
+		pool := idx%2 == 1
+		k := w.begin(fmt.Sprintf("interleaved-credit-%d", idx), cid, otherCid)
+		accts := []int{acctA, acctB}
+		var bals []types.Currency
+		if pool {
+			accts = []int{poolP, poolP + 1}
+			bals, _ = w.rig.EC.PoolBalances([]proto4.Account{rhpx.Acct(poolP), rhpx.Acct(poolP + 1)})
+		} else {
+			bals, _ = w.rig.EC.AccountBalances([]proto4.Account{rhpx.Acct(acctA), rhpx.Acct(acctB)})
+		}
+		hi := bals[0]
+		if bals[1].Cmp(hi) > 0 {
+			hi = bals[1]
+		}
+		target := hi.Add(types.Siacoins(5))
+		due := target.Sub(bals[0]).Add(target.Sub(bals[1]))
+		var mid []rhpx.Result
+		between := func() {
+			switch {
+			case pool: // top the first pool up part of the way through the other contract
+				mid = append(mid, w.s.Replenish(rhpx.ReplArgs{Pool: true, Cid: otherCid, Accounts: accts[:1], Target: bals[0].Add(types.Siacoins(2)), Chal: rhpx.Honest, Second: rhpx.Honest}))
+			case idx%4 == 0: // fund one listed account
+				mid = append(mid, w.s.Fund(rhpx.FundArgs{Cid: otherCid, Deposits: []rhpx.Deposit{{Account: acctA, Amount: types.Siacoins(4)}}, Sig: rhpx.Honest}))
+			default: // fund both, one of them past the target
+				mid = append(mid, w.s.Fund(rhpx.FundArgs{Cid: otherCid, Deposits: []rhpx.Deposit{{Account: acctB, Amount: types.Siacoins(9)}, {Account: acctA, Amount: types.Siacoins(1)}}, Sig: rhpx.Honest}))
+			}
+		}
+		second := rhpx.Honest
+		if idx >= 4 {
+			second = rhpx.BadS
+		}
+		k.twoPhase = true
+		k.attempt("replenish", fmt.Sprintf("interleaved-credit-%d", idx), cid, second.Kind == "h", due, func() rhpx.Result {
+			return w.s.Replenish(rhpx.ReplArgs{Pool: pool, Cid: cid, Accounts: accts, Target: target, Chal: rhpx.Honest, Second: second, CurIDs: w.cur, Between: between})
+		})
+		for _, m := range mid {
+			k.c.Op(m.Op, m.Impl)
+			if m.Cls != "ok" {
+				k.c.Oracle("interleaved-operation-refused", "the operation through the other contract was refused: %s", m.Impl)
+			}
+		}
+		k.c.Op("replc", "ok")
+		k.observe()
+		k.consensusOK("interleaved-credit", otherCid)
+		k.done(true, "kind:interleaved-credit")
 	}
 }
 
@@ -1106,7 +1185,7 @@ func Run(r *vh.Run) {
 		jobs = append(jobs, params(i))
 	}
 	for i := 0; i < 8; i++ {
-		jobs = append(jobs, interleaved(i))
+		jobs = append(jobs, interleaved(i), interleavedCredit(i))
 	}
 	nh := r.Pick(3000, 40000)
 	steps := r.Pick(25, 50)
